@@ -17,7 +17,7 @@ theorem isDigit_ne_minus {a : Char} (h : isDigit a = true) : a ≠ '-' := by
 /-- `DATE_PATTERN` on a text written as sign, year digits, `-MM-DD`. -/
 theorem dateP_digits (neg : Bool) (ys : List Char) (m d : Nat) (rest : List Char)
     (hd : ∀ c ∈ ys, isDigit c = true) (h4 : 4 ≤ ys.length) (h9 : ys.length ≤ 9)
-    (h0 : ys.head? ≠ some '0') (hm : m < 100) (hdd : d < 100) :
+    (h0 : ys.length = 4 ∨ ys.head? ≠ some '0') (hm : m < 100) (hdd : d < 100) :
     dateP ((if neg then ['-'] else []) ++ ys ++ '-' :: (pad2 m ++ '-' :: (pad2 d ++ rest))) =
       some ((if neg then -(natOfDigits ys : Int) else (natOfDigits ys : Int), m, d), rest) := by
   have hspan : spanDigits (ys ++ '-' :: (pad2 m ++ '-' :: (pad2 d ++ rest))) =
@@ -28,7 +28,7 @@ theorem dateP_digits (neg : Bool) (ys : List Char) (m d : Nat) (rest : List Char
     simp only [if_true, List.cons_append, List.nil_append]
     unfold dateP
     simp only [hspan]
-    simp only [h4, h9, h0, ne_eq, not_false_eq_true, and_self, if_true]
+    simp only [h4, h9, h0, ne_eq, and_self, if_true]
     rw [twoDigits_pad2 hm]
     simp only [twoDigits_pad2 hdd]
   | false =>
@@ -48,7 +48,7 @@ theorem dateP_digits (neg : Bool) (ys : List Char) (m d : Nat) (rest : List Char
         subst h1 h2
         simp only [List.cons_append] at hspan
         simp only [hspan]
-        simp only [h4, h9, h0, ne_eq, not_false_eq_true, and_self, if_true]
+        simp only [h4, h9, h0, ne_eq, and_self, if_true]
         rw [twoDigits_pad2 hm]
         simp only [twoDigits_pad2 hdd]
         simp
@@ -57,7 +57,7 @@ theorem isValidDate_unfold (y : Int) (m d : Nat) :
     isValidDate y m d = (chronoDateOk y m d ||
       (decide (-999999999 ≤ y ∧ y ≤ 999999999) &&
         (match lastDayOfMonth y m with
-          | some l => decide (d ≤ l)
+          | some l => decide (1 ≤ d) && decide (d ≤ l)
           | none => false))) := by
   unfold isValidDate
   rw [toChrono_midnight]
@@ -99,57 +99,59 @@ theorem isValidDate_bounds {y : Int} {m d : Nat} (h : isValidDate y m d = true) 
       simp at hl
       omega
 
-theorem printYear_pos {y : Int} (h0 : 1000 ≤ y) : printYear y = natToDigits y.natAbs := by
-  unfold printYear
-  rw [if_neg (by omega)]
-  apply padLeft_of_le
-  have := natToDigits_length_ge 3 y.natAbs (by omega)
-  omega
+theorem isValidDate_year_range {y : Int} {m d : Nat} (h : isValidDate y m d = true) :
+    -999999999 ≤ y ∧ y ≤ 999999999 := by
+  rw [isValidDate_unfold] at h
+  simp only [Bool.or_eq_true, Bool.and_eq_true, decide_eq_true_eq] at h
+  rcases h with hc | ⟨hr, _⟩
+  · simp only [chronoDateOk, Bool.and_eq_true] at hc
+    have h1 := of_decide_eq_true hc.1.1
+    have h2 := of_decide_eq_true hc.1.2
+    unfold chronoMinYear at h1
+    unfold chronoMaxYear at h2
+    omega
+  · exact hr
 
-theorem printYear_neg {y : Int} (h0 : y ≤ -1000) : printYear y = '-' :: natToDigits y.natAbs := by
+theorem printYear_eq (y : Int) :
+    printYear y = (if decide (y < 0) then ['-'] else []) ++ padLeft 4 (natToDigits y.natAbs) := by
   unfold printYear
-  rw [if_pos (by omega)]
-  congr 1
-  apply padLeft_of_le
-  have := natToDigits_length_ge 3 y.natAbs (by omega)
-  omega
+  by_cases h : y < 0 <;> simp [h]
 
-/-- `dateP` on the text of a date whose year has four to nine digits. -/
+/-- `dateP` on the text of a date, for every year of up to nine digits. -/
 theorem dateP_printDate (d : Date) (rest : List Char)
-    (hy : (1000 ≤ d.y ∧ d.y ≤ 999999999) ∨ (-999999999 ≤ d.y ∧ d.y ≤ -1000))
-    (hm : d.m < 100) (hd : d.d < 100) :
+    (hy : -999999999 ≤ d.y ∧ d.y ≤ 999999999) (hm : d.m < 100) (hd : d.d < 100) :
     dateP (printDate d ++ rest) = some ((d.y, d.m, d.d), rest) := by
-  have hlen4 : 4 ≤ (natToDigits d.y.natAbs).length := by
-    have := natToDigits_length_ge 3 d.y.natAbs (by omega); omega
+  have hlen := padLeft_length 4 (natToDigits d.y.natAbs)
   have hlen9 : (natToDigits d.y.natAbs).length ≤ 9 :=
     natToDigits_length_le 9 d.y.natAbs (by omega) (by omega)
-  have hhead := natToDigits_head_ne_zero (n := d.y.natAbs) (by omega)
-  have hdig := natToDigits_all_digits d.y.natAbs
+  have hdig := padLeft_all_digits 4 d.y.natAbs
+  have hhead : (padLeft 4 (natToDigits d.y.natAbs)).length = 4 ∨
+      (padLeft 4 (natToDigits d.y.natAbs)).head? ≠ some '0' := by
+    by_cases h4 : (natToDigits d.y.natAbs).length ≤ 4
+    · left; omega
+    · right
+      rw [padLeft_of_le (by omega)]
+      apply natToDigits_head_ne_zero
+      by_cases h0 : d.y.natAbs = 0
+      · rw [h0, natToDigits_lt10 (by decide)] at h4; simp at h4
+      · omega
+  have := dateP_digits (decide (d.y < 0)) (padLeft 4 (natToDigits d.y.natAbs)) d.m d.d rest hdig
+    (by omega) (by omega) hhead hm hd
   unfold printDate
-  rcases hy with ⟨h0, h1⟩ | ⟨h0, h1⟩
-  · rw [printYear_pos h0]
-    have := dateP_digits false (natToDigits d.y.natAbs) d.m d.d rest hdig hlen4 hlen9 hhead hm hd
-    simp only [Bool.false_eq_true, if_false, List.nil_append] at this
-    simp only [List.append_assoc, List.cons_append] at this ⊢
-    rw [this, natOfDigits_natToDigits]
-    congr 2
-    simp; omega
-  · rw [printYear_neg h1]
-    have := dateP_digits true (natToDigits d.y.natAbs) d.m d.d rest hdig hlen4 hlen9 hhead hm hd
-    simp only [if_true] at this
-    simp only [List.append_assoc, List.cons_append, List.nil_append] at this ⊢
-    rw [this, natOfDigits_natToDigits]
-    congr 2
-    simp; omega
+  rw [printYear_eq]
+  simp only [List.append_assoc, List.cons_append] at this ⊢
+  rw [this, natOfDigits_padLeft]
+  congr 2
+  by_cases h : d.y < 0 <;> simp [h] <;> omega
 
 /-! ## Zones -/
 
-/-- The zones whose text reads back: known names made of zone characters; offsets of less than
-15 hours that are positive or at most −1 hour (the printed hour field carries the sign). -/
+/-- The zones whose text reads back: known names made of zone characters; every non-zero
+offset of less than 15 hours (an offset of zero is UTC). -/
 def ZoneReadable (zk : List Char → Bool) : Zone → Prop
   | .utc => True
   | .localZ => True
-  | .offset o => (0 < o ∨ o ≤ -3600) ∧ -54000 < o ∧ o < 54000
+  | .offset o => o ≠ 0 ∧ -54000 < o ∧ o < 54000
   | .zone n => n ≠ [] ∧ n.all isZoneChar = true ∧ zk n = true
 
 theorem printZone_noDigitHead (z : Zone) : NoDigitHead (printZone z) := by
@@ -173,14 +175,6 @@ theorem printZone_no_dot (z : Zone) : ∀ r, printZone z ≠ '.' :: r := by
     split <;> (split <;> simp)
   | zone n => simp [printZone]
 
-theorem tdiv_3600 (o : Int) :
-    (Int.tdiv o 3600).natAbs = o.natAbs / 3600 ∧ (Int.tdiv o 3600 < 0 ↔ o ≤ -3600) := by
-  by_cases h : 0 ≤ o
-  · rw [Int.tdiv_eq_ediv_of_nonneg h]; omega
-  · have hk : o = -(-o) := by omega
-    rw [hk, Int.neg_tdiv, Int.tdiv_eq_ediv_of_nonneg (by omega)]
-    omega
-
 theorem zoneP_offset_text (zk : List Char → Bool) (neg : Bool) (hh mm ss : Nat)
     (h1 : hh ≤ 14) (h2 : mm < 60) (h3 : ss < 60) :
     zoneP zk ((if neg then '-' else '+') :: (pad2 hh ++ ':' :: (pad2 mm ++
@@ -191,17 +185,19 @@ theorem zoneP_offset_text (zk : List Char → Bool) (neg : Bool) (hh mm ss : Nat
   have mm100 : mm < 100 := by omega
   have ss100 : ss < 100 := by omega
   have h14 : ¬ 14 < hh := by omega
+  have h59 : ¬ 59 < mm := by omega
+  have s59 : ¬ 59 < ss := by omega
   have e1 := twoDigits_pad2 hh100 (':' :: (pad2 mm ++ (if ss > 0 then ':' :: pad2 ss else [])))
   have e2 := twoDigits_pad2 mm100 (if ss > 0 then ':' :: pad2 ss else [])
   have e3 := twoDigits_pad2 ss100 []
   simp only [List.append_nil] at e3
   by_cases hs : ss > 0
   · simp only [hs, if_true] at e1 e2 ⊢
-    cases neg <;> simp [zoneP, e1, e2, e3, h14] <;> omega
+    cases neg <;> simp [zoneP, e1, e2, e3, h14, h59, s59] <;> omega
   · have hs0 : ss = 0 := by omega
     subst hs0
     simp only [Nat.lt_irrefl, if_false, List.append_nil] at e1 e2 ⊢
-    cases neg <;> simp [zoneP, e1, e2, h14]
+    cases neg <;> simp [zoneP, e1, e2, h14, h59]
 
 theorem zoneP_printZone (zk : List Char → Bool) (z : Zone) (h : ZoneReadable zk z) :
     zoneP zk (printZone z) = some (some z) := by
@@ -213,18 +209,16 @@ theorem zoneP_printZone (zk : List Char → Bool) (z : Zone) (h : ZoneReadable z
     simp [zoneP, printZone, h1, h2, h3]
   | offset o =>
     obtain ⟨hs, hlo, hhi⟩ := h
-    obtain ⟨ha, hneg⟩ := tdiv_3600 o
     have hmm : o.natAbs % 3600 / 60 < 60 := by omega
     have hss : o.natAbs % 3600 % 60 < 60 := by omega
     have hhh : o.natAbs / 3600 ≤ 14 := by omega
-    have key := zoneP_offset_text zk (decide (Int.tdiv o 3600 < 0)) (o.natAbs / 3600)
+    have key := zoneP_offset_text zk (decide (o < 0)) (o.natAbs / 3600)
       (o.natAbs % 3600 / 60) (o.natAbs % 3600 % 60) hhh hmm hss
     have htext : printZone (.offset o) =
-        (if decide (Int.tdiv o 3600 < 0) = true then '-' else '+') ::
+        (if decide (o < 0) = true then '-' else '+') ::
           (pad2 (o.natAbs / 3600) ++ ':' :: (pad2 (o.natAbs % 3600 / 60) ++
             (if o.natAbs % 3600 % 60 > 0 then ':' :: pad2 (o.natAbs % 3600 % 60) else []))) := by
       unfold printZone
-      simp only [ha]
       by_cases hsec : o.natAbs % 3600 % 60 > 0
       · simp only [hsec, if_true, List.cons_append, List.append_assoc, decide_eq_true_eq]
       · simp only [hsec, if_false, List.cons_append, List.append_assoc, decide_eq_true_eq,
@@ -232,14 +226,12 @@ theorem zoneP_printZone (zk : List Char → Bool) (z : Zone) (h : ZoneReadable z
     rw [htext, key]
     congr 2
     unfold Zone.new
-    by_cases hn : Int.tdiv o 3600 < 0
-    · have : o ≤ -3600 := hneg.1 hn
-      simp only [hn, decide_true, if_true]
+    by_cases hn : o < 0
+    · simp only [hn, decide_true, if_true]
       rw [if_pos (by omega)]
       congr 1
       omega
-    · have : ¬ o ≤ -3600 := fun h => hn (hneg.2 h)
-      simp only [hn, decide_false, Bool.false_eq_true, if_false]
+    · simp only [hn, decide_false, Bool.false_eq_true, if_false]
       rw [if_pos (by omega)]
       congr 1
       omega
@@ -340,12 +332,12 @@ theorem parseTime_printTime (zk : List Char → Bool) (t : Time) (hv : isValidTi
   simp only [hv, if_true, chronoTimeOk_of_valid hv hns]
 
 theorem parseDateTime_printDateTime (zk : List Char → Bool) (dt : DateTime)
-    (hy : (1000 ≤ dt.date.y ∧ dt.date.y ≤ 999999999) ∨ (-999999999 ≤ dt.date.y ∧ dt.date.y ≤ -1000))
     (hd : isValidDate dt.date.y dt.date.m dt.date.d = true)
     (hv : isValidTime dt.time.h dt.time.mi dt.time.s = true)
     (hns : dt.time.ns < 1000000000) (hz : ZoneReadable zk dt.time.z) :
     parseDateTime zk (printDateTime dt) = some dt := by
   have hb := isValidDate_bounds hd
+  have hy := isValidDate_year_range hd
   unfold parseDateTime printDateTime
   rw [dateP_printDate dt.date ('T' :: printTime dt.time) hy (by omega) (by omega)]
   simp only []
@@ -353,9 +345,9 @@ theorem parseDateTime_printDateTime (zk : List Char → Bool) (dt : DateTime)
   simp only [hd, hv, if_true]
 
 theorem parseDate_printDate (d : Date)
-    (hy : (1000 ≤ d.y ∧ d.y ≤ 999999999) ∨ (-999999999 ≤ d.y ∧ d.y ≤ -1000))
     (hd : isValidDate d.y d.m d.d = true) : parseDate (printDate d) = some d := by
   have hb := isValidDate_bounds hd
+  have hy := isValidDate_year_range hd
   have := dateP_printDate d [] hy (by omega) (by omega)
   rw [List.append_nil] at this
   unfold parseDate
